@@ -223,3 +223,20 @@ PLAN["C07"]["quick"]["tests"][0]["shards"] = 12
 PLAN["C07"]["thorough"]["tests"].append({"run": "TestC07System", "shards": 6, "checks": 25, "timeout": 840})
 PLAN["C07"]["thorough"]["tests"][0]["shards"] = 10
 PLAN["C07"]["needs_jiva"] = True
+
+PLAN["C19"] = {
+    "level": "exploration",
+    "rule": ("source volume (RF 1-2, in-process stack with real sync agents) with a generated history of writes and user snapshots; one snapshot (every position; or a name that does not exist) "
+             "is cloned by the repository's own binary started as `jiva replica --type clone --cloneIP A --snapName S --frontendIP B` against a fresh in-process controller B (RF=1) whose "
+             "signals and backend are the real remote factory, so startReplica's own ordering (register/start, inProgress, file copy through ssync, update clone info, reload, LUN map, "
+             "completed) is what runs; optionally the clone process is killed (-9) at a generated time during the copy and restarted; observed every 25 ms: clone status over REST, the "
+             "clone's mode in B, a probe read through B; oracle: status never goes back, B lists the clone RW only once the status is completed, every read through B fails before that, "
+             "once RW a full read through B equals the model image of S and the clone's revision counter equals the one the source recorded for S, a clone of a missing snapshot ends in "
+             "status error and is never readable; non-trivial = the clone completed or ended in error"),
+    "assumptions": ["the clone replica is the real jiva binary built from /repo (with its sync agent started by the harness on a private ssync port range: the built-in one always uses 9700-9800 on all interfaces, which would collide between parallel cases)",
+                    "kill points are wall-clock times, not enumerated system-call boundaries"],
+    "technique": "property-based system test (rapid): generated source history and interruption, model image of the snapshot as oracle, status/mode timeline invariants",
+    "needs_jiva": True,
+    "quick": {"wall": 170, "tests": [{"run": "TestC19", "shards": 12, "checks": 3, "timeout": 150, "shrink": "1s"}]},
+    "thorough": {"wall": 1500, "tests": [{"run": "TestC19", "shards": 12, "checks": 40, "timeout": 1400, "shrink": "60s"}]},
+}
